@@ -75,6 +75,7 @@ static void ctx_install(secp256k1_context *c) {
 #define MAXTOK 4096
 static TLS char *g_tok[MAXTOK];
 static TLS int g_ntok;
+static TLS int g_misalign;  /* trailing token "!misalign=K" (K = 1..15): every argument / output block of this call starts K bytes past a 16-byte boundary (its END still coincides with the end of the heap block) */
 static TLS int g_alias;     /* trailing token "!alias": the op passes its output pointer equal to one of its inputs (in-place use) */
 static TLS void *g_tmp[MAXTOK * 2];
 static TLS int g_ntmp;
@@ -98,7 +99,7 @@ static unsigned char *A_blob(int i, size_t *len) {
     if (s[0] == '.' && s[1] == 0) { if (len) *len = 0; return (unsigned char *)keep(xmalloc(0)); }
     n = strlen(s);
     if (n & 1) { bad("odd hex", i); return NULL; }
-    p = (unsigned char *)keep(xmalloc(n / 2));
+    p = (unsigned char *)keep(xmalloc(n / 2 + (size_t)g_misalign)) + g_misalign;
     for (k = 0; k < n / 2; k++) {
         int a = hexv(s[2 * k]), b = hexv(s[2 * k + 1]);
         if (a < 0 || b < 0) { bad("bad hex", i); return p; }
@@ -123,7 +124,7 @@ static long A_int(int i) {
     return strtol(g_tok[i], NULL, 10);
 }
 /* exact-size output block filled with a pattern */
-static unsigned char *O_buf(size_t n) { unsigned char *p = (unsigned char *)keep(xmalloc(n)); memset(p, 0xC5, n); return p; }
+static unsigned char *O_buf(size_t n) { unsigned char *p = (unsigned char *)keep(xmalloc(n + (size_t)g_misalign)) + g_misalign; memset(p, 0xC5, n); return p; }
 
 static void out_raw(const char *s, size_t n) {
     if (g_outlen + n + 2 > g_outcap) { g_outcap = (g_outlen + n + 2) * 2; g_out = (char *)realloc(g_out, g_outcap); }
@@ -184,7 +185,8 @@ static void vshim_exec_line(char *line, int use_static) {
         while (*p && *p != ' ' && *p != '\t' && *p != '\n' && *p != '\r') p++;
     }
     if (g_ntok == 0) { reply("ERR empty%s", "", 0, 0, 0, 0); return; }
-    g_alias = 0;
+    g_alias = 0; g_misalign = 0;
+    if (g_ntok > 1 && strncmp(g_tok[g_ntok - 1], "!misalign=", 10) == 0) { g_misalign = atoi(g_tok[g_ntok - 1] + 10) & 15; g_ntok--; }
     if (g_ntok > 1 && strcmp(g_tok[g_ntok - 1], "!alias") == 0) { g_alias = 1; g_ntok--; }
     ctx = g_ctx[0];
     if (g_tok[0][0] == '@') {
